@@ -244,6 +244,19 @@ def run(ctx):
     # ---- S10
     _s10(ctx)
 
+    # ---- S13 register copies keep their width (all classes of stream.py and packet.py)
+    ctx.rule("S13", "a register loaded with the plain value of another signal of its class is declared with the same width (or `like` "
+                    "it): a narrower copy drops the token's upper bits silently", min_sites=6)
+    from ..rules_stream import copy_widths
+    for rel in (STREAM, "litex/soc/interconnect/packet.py"):
+        mm_ = ctx.mod(rel)
+        for cls, cdef in mm_.classes.items():
+            try:
+                fxc = fx_of(ctx, rel, cls)
+            except AnalysisError:
+                continue
+            copy_widths(ctx, "S13", fxc, cls, cdef)
+
     # ---- S11 occupancy range
     from ..rules_stream import s_range
     s_range(ctx, "S11", fx_of(ctx, STREAM, "Gearbox"), "Gearbox", "level")
